@@ -20,9 +20,10 @@ namespace
     //  [3, t, kind, a, b, budget]   client: give timer t a callback script
     //  [4, t]                       client: destroy timer t (while planned or not) and create a fresh one
     //  [5, t]                       client: plan(t) again with unchanged start/interval (re-insert of a linked node)
+    //  [6, g]                       manager g is destroyed while timers are pending in it (they must all end up unplanned) and replaced by a fresh one
     // script kinds: 0 nothing, 1 unplan self, 2 unplan other a, 3 replan self (now, b), 4 plan other a overdue
     //  (start = now - b*2, interval b), 5 plan other a in the future (start=now, interval b), 6 destroy other a
-    enum { OP_TICK, OP_PLAN, OP_UNPLAN, OP_SCRIPT, OP_DESTROY, OP_REPLAN_SAME, OP_N };
+    enum { OP_TICK, OP_PLAN, OP_UNPLAN, OP_SCRIPT, OP_DESTROY, OP_REPLAN_SAME, OP_MANAGER_DEATH, OP_N };
 
     // The manager is a template over its time base (timer_spec<Time>): the world is instantiated for the stock 64-bit
     // tick counter, for a floating-point time base with fractional deadlines, and for a 32-bit counter; the run's
@@ -155,8 +156,10 @@ namespace
                                      r.range(1, 3)});
                 else if (k < 960)
                     p.ops.push_back({OP_REPLAN_SAME, (int64_t)r.below(nt)});
-                else
+                else if (k < 990)
                     p.ops.push_back({OP_DESTROY, (int64_t)r.below(nt)});
+                else
+                    p.ops.push_back({OP_MANAGER_DEATH, (int64_t)r.below(2)});
             }
             // always end with the loop catching up: liveness after the last client op
             p.ops.push_back({OP_TICK, period});
@@ -166,7 +169,7 @@ namespace
         std::string describe(const Plan &p) override
         {
             std::string s = "timers=" + std::to_string(p.c(0)) + " time_units_per_tick=" + std::to_string((double)Units<TT>::unit(p.c(3, 0))) + " ops:";
-            static const char *nm[] = {"tick+", "plan", "unplan", "script", "destroy", "replan_same"};
+            static const char *nm[] = {"tick+", "plan", "unplan", "script", "destroy", "replan_same", "manager_death"};
             for (auto &o : p.ops)
             {
                 s += " ";
@@ -313,7 +316,10 @@ namespace
             Result res;
             tr = &t;
             n = (int)mod(p.c(0) - 1, 8) + 1;
-            Manager manager, manager2;
+            std::unique_ptr<Manager> own[2];
+            own[0].reset(new Manager());
+            own[1].reset(new Manager());
+            Manager &manager = *own[0], &manager2 = *own[1];
             S = Units<TT>::unit(p.c(3, 0));
             if (S != 1) probe(S > 1 ? "fine_clock_resolution" : "fractional_time_base");
             int64_t ticks = 0;
@@ -403,6 +409,21 @@ namespace
                     if (model[ti].planned) fault("destroy_planned_timer");
                     do_destroy(ti);
                     break;
+                case OP_MANAGER_DEATH:
+                {
+                    int g = (int)mod(arg(o, 1), nmgr);
+                    int pending = 0;
+                    for (auto &m : model)
+                        if (m.planned && m.mg == g) { m.planned = false; pending++; }
+                    t.ev("manager %d dies with %d timers pending", g, pending);
+                    if (pending >= 2) probe("manager_destroyed_with_pending_timers");
+                    if (pending) fault("destroy_manager_with_pending_timers");
+                    own[g].reset(); // ~dlist_base unlinks every node
+                    own[g].reset(new Manager());
+                    mgrs[g] = own[g].get();
+                    if (g == 0) mgr = mgrs[0];
+                    break;
+                }
                 case OP_REPLAN_SAME:
                     if (model[ti].planned)
                     {
